@@ -73,7 +73,10 @@ impl G {
         lines[ch.fault_rel] = format!("{M_FAULT}{}", lines[ch.fault_rel]);
         let single = lines.len() == 1;
         let stmt_only = !ch.assign.is_empty();
-        (pre, Expr { lines, atomic: single && !stmt_only, stmt_only, is_call: false, kind: "fault=chain".into() })
+        // (a `:` of a type hint would start the format options inside a string interpolation: such a
+        // chain is only used in plain statement contexts)
+        let has_colon = lines.iter().any(|l| l.contains(':'));
+        (pre, Expr { lines, atomic: single && !stmt_only && !has_colon, stmt_only, is_call: false, kind: "fault=chain".into() })
     }
 
     /// the statement that consumes the generator made by `callee(..)` far enough to reach the key
